@@ -112,7 +112,7 @@ def run(ctx):
 
     def sm_send(body):
         return field_receiver_calls(F, body, "DefaultCommitHandler", "sm_apply_tx", r"mpsc::\w+::\w*Sender::send$")
-    send_roots = set(F.root_of[x.id] for x in F.bodies.values() if x.crate == "d_engine_core" and "test" not in x.id and sm_send(x))
+    send_roots = set(F.root_of[x.id] for x in F.bodies.values() if x.crate == "d_engine_core" and not is_test_id(x.id) and sm_send(x))
     dispatch = [x for x, t in b.calls() if F.call_reaches(t, lambda k: k in send_roots, 3)] + [x for x, _ in sm_send(b)]
     ctx.floor("C06-b", len(dispatch), 3, "dispatch sites (send on sm_apply_tx, via send_to_sm_worker) in process_batch")
 
@@ -127,7 +127,7 @@ def run(ctx):
                   "fetches exactly the pending range", "the fetched range is not exactly pending_range() (%s): entries are skipped or re-read" % sorted(s.sources, key=str)[:6], loc(b, x))
     loops = loop_over(F, b, lambda s: s.has_call(r"::get_entries_range$"))
     ctx.floor("C06-a", len(loops), 1, "`for entry in entries` over the fetched range")
-    for (it, nxt, el) in loops[:1]:
+    for (it, nxt, el) in loops:
         s = Slice(F, b).operand(b.term(it)["args"][0])
         reo = sorted(strip_generics(y[1]).split("::")[-1] for y in s.sources if y[0] == "call" and REORDER.search(strip_generics(y[1])))
         ctx.check("C06-a", "%s#log-order" % fkey(pb), not reo, "entries are iterated as returned by get_entries_range",
@@ -153,7 +153,7 @@ def run(ctx):
     ctx.floor("C06-b", len(starts), 1, "handler fields the start of pending_range() is computed from")
     writer_roots = {}
     for x in F.bodies.values():
-        if x.crate != "d_engine_core" or "test" in x.id:
+        if x.crate != "d_engine_core" or is_test_id(x.id):
             continue
         for f in starts:
             for (bi, t) in field_receiver_calls(F, x, DSMH, f, WRITE):
@@ -174,7 +174,7 @@ def run(ctx):
     # consumer-side filter: entry.index compared with last_applied before the apply
     consumer = set([wk.id, ac.id, dec.id])
     for m in ("d_engine_core::state_machine_handler::StateMachineHandler::apply_chunk", "d_engine_core::storage::state_machine::StateMachine::apply_chunk"):
-        consumer |= set(d for (_s, d) in F.impls_of_method.get(m, []) if d in F.bodies and "test" not in d and "mock" not in d.lower())
+        consumer |= set(d for (_s, d) in F.impls_of_method.get(m, []) if d in F.bodies and not is_test_id(d) and "mock" not in d.lower())
     for r in list(consumer):
         for (k, tg, _bid, _bi) in F.callees(r):
             consumer |= set(x for x in tg if x.startswith("d_engine_") and x in F.bodies and k == x)
@@ -243,7 +243,7 @@ def run(ctx):
     ctx.floor("C06-d", len(loops), 1, "`for entry in entries` in decode_entries")
     aggs = agg_sites(dec, "command::ApplyEntry")
     ctx.floor("C06-d", len(aggs), 1, "ApplyEntry constructions in decode_entries (one per arm, or one after the match)")
-    for (it, nxt, el) in loops[:1]:
+    for (it, nxt, el) in loops:
         def is_apply_entry(t):
             s = Slice(F, dec).operand(t["args"][1])
             return any(y[0] == "agg" and ends(y[1], "command::ApplyEntry") for y in s.sources)
